@@ -63,10 +63,29 @@ func ParseRegistrySource(given string) (RegistrySource, error) {
 		panic("post-split registry address still has subdir")
 	}
 
+	if err := registryPackagePrints(pkgOnlyAddr.Package); err != nil {
+		return RegistrySource{}, err
+	}
+
 	return RegistrySource{
 		pkg:     pkgOnlyAddr.Package,
 		subPath: subPath,
 	}, nil
+}
+
+// registryPackagePrints makes sure that an address which parsed can also be
+// printed. The host name is kept in its encoded form and decoded again for
+// display, and a few hosts pass the encoding that the decoding refuses (a
+// letter-like symbol such as U+2135 next to an ASCII letter, a label of more
+// than 1024 characters); the address library reports that with a panic.
+func registryPackagePrints(pkg regaddr.ModulePackage) (err error) {
+	defer func() {
+		if r := recover(); r != nil {
+			err = fmt.Errorf("invalid registry hostname: %v", r)
+		}
+	}()
+	_ = pkg.String()
+	return nil
 }
 
 // ParseRegistryPackage parses the given string as a registry package address,
